@@ -1,6 +1,7 @@
 import RdsProofs.Reach
 import RdsProofs.WordedProofs
 import RdsProofs.LinkProofs
+import RdsProofs.AuditC09
 /-!
 # Property C10 — AF list is exactly the set of valid FM codes received in 0A
 
@@ -14,6 +15,7 @@ and C whose first code is not 250 (`Mon.group`). That every addition fires the A
 -- THEOREM: RDS.C10_worded_extended
 -- THEOREM: RDS.C10_monotone
 -- THEOREM: RDS.C10_only_valid_codes
+-- THEOREM: RDS.C10_worded_extended'
 namespace RDS
 
 /-- C10 for every history and every next call -/
